@@ -3,6 +3,8 @@ package main
 import (
 	"bytes"
 	"fmt"
+	"runtime/debug"
+	"sort"
 	"strings"
 
 	"github.com/jf-tech/omniparser"
@@ -85,7 +87,9 @@ func c10Formats() []*recFormat {
 				`<s:rec xmlns:n="urn:notes"><s:id>3</s:id><n:note>x</n:note></s:rec>`, `<s:rec xmlns:s="urn:other"><s:id>4</s:id></s:rec>`,
 				`<rec xmlns="urn:shop"><id>5</id><t:note>y</t:note></rec>`, `<s:rec><s:id>6</s:id><t:note>z</t:note><s:qty>6</s:qty></s:rec>`},
 			Fail: map[string][]string{"cast": {`<s:rec><s:id>7</s:id><s:qty>bad</s:qty></s:rec>`, `<s:rec xmlns:n="urn:notes"><s:id>8</s:id><s:qty>x</s:qty><n:note>n</n:note></s:rec>`}},
-			Wrap: func(r []string) string { return `<root xmlns:s="urn:shop" xmlns:t="urn:notes">` + strings.Join(r, "\n") + "</root>" }},
+			Wrap: func(r []string) string {
+				return `<root xmlns:s="urn:shop" xmlns:t="urn:notes">` + strings.Join(r, "\n") + "</root>"
+			}},
 		{Name: "xml", Schema: `{"parser_settings": {"version": "omni.2.1", "file_format_type": "xml"},
  "transform_declarations": {"FINAL_OUTPUT": {"xpath": "/root/rec", "object": {"id": {"xpath": "@id"}, "qty": {"xpath": "qty", "type": "int"},
    "one": {"xpath": "u"}, "tags": {"array": [{"xpath": "tag"}]}, "ts": ` + tsFunc + `, "js": {"custom_func": {"name": "javascript_with_context", "args": [{"const": "JSON.parse(_node).qty"}]}},
@@ -120,7 +124,52 @@ func c10Drive(args []string) int {
 		events = append(events, ev)
 		sum.Traces++
 	}
+	// the node pool is process-wide: the formats whose nodes carry format-specific data (namespaces, JSON types) go first and
+	// garbage collection is held off, so that the flat formats draw nodes with a previous life
+	formats := c10Formats()
+	sort.SliceStable(formats, func(i, j int) bool {
+		rank := func(n string) int {
+			switch {
+			case n == "xml" || n == "json":
+				return 0
+			case n == "xml-ns": // last among them: its nodes carry prefixes and URIs
+				return 1
+			}
+			return 2
+		}
+		return rank(formats[i].Name) < rank(formats[j].Name)
+	})
+	// baseline and sanity of the pools (a wrong pool would make the laws vacuous): in declaration order, before anything else
+	// has run, ok records succeed alone and failing ones fail alone
+	baseline := map[string][]string{}
 	for _, f := range c10Formats() {
+		sch, err, p := newSchema([]byte(f.Schema))
+		if err != nil || p != "" {
+			fmt.Println("error: c10 schema rejected", f.Name, err, p)
+			return 3
+		}
+		f.sch = sch
+		for _, x := range f.OK {
+			t := c10Run(f, []string{x})
+			if len(t) != 2 || !strings.HasPrefix(t[0], "ok|") {
+				fmt.Println("error: pool record does not transform alone:", f.Name, x, t)
+				return 3
+			}
+			baseline[f.Name+"\x00"+x] = t
+		}
+		for _, rs := range f.Fail {
+			for _, x := range rs {
+				t := c10Run(f, []string{x})
+				if len(t) != 2 || !strings.HasPrefix(t[0], "failed|") {
+					fmt.Println("error: failing pool record does not fail alone:", f.Name, x, t)
+					return 3
+				}
+				baseline[f.Name+"\x00"+x] = t
+			}
+		}
+	}
+	defer debug.SetGCPercent(debug.SetGCPercent(-1))
+	for _, f := range formats {
 		emit(M{"kind": "progress", "format": f.Name}) // names the format should the runtime kill the process (vlib.RepoCrash)
 		sch, err, p := newSchema([]byte(f.Schema))
 		if err != nil || p != "" {
@@ -138,17 +187,12 @@ func c10Drive(args []string) int {
 				kindOf[x] = k
 			}
 		}
-		// sanity of the pools (a wrong pool would make the laws vacuous): ok records succeed alone, failing ones fail alone
-		for _, x := range pool {
-			if t := c10Run(f, []string{x}); len(t) != 2 || !strings.HasPrefix(t[0], "ok|") {
-				fmt.Println("error: pool record does not transform alone:", f.Name, x, t)
-				return 3
-			}
-		}
-		for _, x := range failing {
-			if t := c10Run(f, []string{x}); len(t) != 2 || !strings.HasPrefix(t[0], "failed|") {
-				fmt.Println("error: failing pool record does not fail alone:", f.Name, x, t)
-				return 3
+		// every record transformed alone gives what it gave at the start of the process (clean pool, nothing before it):
+		// a record's output depends on that record only
+		for _, x := range append(append([]string{}, pool...), failing...) {
+			if t := c10Run(f, []string{x}); fmt.Sprint(t) != fmt.Sprint(baseline[f.Name+"\x00"+x]) {
+				violation("C10", "record-alone-differs:"+f.Name, fmt.Sprintf("%s: the record %q transformed alone gives %v after other transforms in the process, %v at its start", f.Name, x, t, baseline[f.Name+"\x00"+x]),
+					M{"format": f.Name, "record": x})
 			}
 		}
 		pick := func(n int, withFail bool) []string {
